@@ -415,6 +415,9 @@ func runC14(c C14Case, cs *kit.CaseStats) error {
 			}
 			if invalidPos >= 0 {
 				cs.Classf("invalid-member")
+				if invalidPos < known {
+					cs.Class("invalid-copy-of-a-pooled-member")
+				}
 			}
 			if known > 0 && !allKnown {
 				cs.Class("partly-known-set")
@@ -429,6 +432,12 @@ func runC14(c C14Case, cs *kit.CaseStats) error {
 				}
 			} else {
 				cs.Class("submit-accepted")
+				if invalidPos >= 0 {
+					// documented: "If any transaction in the set is invalid, the
+					// entire set is rejected" - also when the invalid member carries
+					// the id of a pooled transaction (a v2 id covers no signature)
+					return fmt.Errorf("%s: a set whose member %d carries an invalid signature (that member's id pooled before: %v) was accepted", where, invalidPos, invalidPos < known)
+				}
 				for id := range before.ids1 {
 					if _, ok := after.ids1[id]; !ok {
 						return fmt.Errorf("%s: pooled v1 transaction %v disappeared", where, id)
